@@ -1914,6 +1914,10 @@ func (c *DefaultCtx) configDependentPaths() {
 	// If StrictRouting is disabled, we strip all trailing slashes
 	if !c.app.config.StrictRouting && len(c.detectionPath) > 1 && c.detectionPath[len(c.detectionPath)-1] == '/' {
 		c.detectionPath = utils.TrimRight(c.detectionPath, '/')
+		// a path of slashes only ("//") is the root, not an empty path that no middleware prefix contains
+		if len(c.detectionPath) == 0 {
+			c.detectionPath = append(c.detectionPath, '/')
+		}
 	}
 
 	// Define the path for dividing routes into areas for fast tree detection, so that fewer routes need to be traversed,
